@@ -100,23 +100,39 @@ def expand(op, tid, ids, origin):
         eid = ids.get('VFS_LOOKUP')
         if eid is None:
             return []
-        return enc_lookup(op['path'].encode(), op['vnode'], eid, tid, origin)
+        return _between(enc_lookup(op['path'].encode(), op['vnode'], eid, tid, origin), op, tid, ids, origin)
     if k == 'gstr':
         eid = ids.get('TRACE_STRING_GLOBAL')
         if eid is None:
             return []
-        return enc_gstring(op['text'].encode(), op['id'], op.get('dbgid', 0), eid, tid, origin)
+        return _between(enc_gstring(op['text'].encode(), op['id'], op.get('dbgid', 0), eid, tid, origin), op, tid, ids,
+                        origin)
     if k == 'tname':
         eid = ids.get('TRACE_STRING_THREADNAME_PREV' if op.get('prev') else 'TRACE_STRING_THREADNAME')
         if eid is None:
             return []
-        return enc_simple_string(op['text'].encode(), eid, tid, origin)
+        return _between(enc_simple_string(op['text'].encode(), eid, tid, origin), op, tid, ids, origin)
     if k == 'seq':
         out = []
         for i, sub in enumerate(op['ops']):
             out += expand(sub, tid, ids, origin + '.%d' % i)
         return out
     raise ValueError('unknown op kind %r' % (k,))
+
+
+def _between(chunks, op, tid, ids, origin):
+    """Records of other emitters on the same thread (interrupt handlers, unrelated singles) placed between the
+    records of one multi-record item: op['between'] = {str(chunk index): [ops]} inserted after that chunk."""
+    btw = op.get('between')
+    if not btw:
+        return chunks
+    out = []
+    for i, c in enumerate(chunks):
+        out.append(c)
+        if i < len(chunks) - 1:
+            for j, sub in enumerate(btw.get(str(i), [])):
+                out += expand(sub, tid, ids, origin + '.b%d_%d' % (i, j))
+    return out
 
 
 def text_one(name, text, q=NONE):
